@@ -65,6 +65,7 @@ typedef struct {
 } worker_t;
 static worker_t W[MAXW + 1];          /* W[nworkers] is the I/O thread */
 
+static atomic_ulong n_restart;
 static atomic_ulong n_ops, n_sent, n_resp, n_nack, n_event, n_ping, n_pong, n_req, n_reent,
        n_sess, n_res, n_cache, n_async, n_notify, n_followup;
 
@@ -315,7 +316,9 @@ static void *worker_main(void *arg) {
     else if (x < 88) { atomic_store(&w->what, "cache"); op_cache(w); }
     else if (x < 93) { atomic_store(&w->what, "ping"); if (w->ping_sess) coap_session_send_ping(w->ping_sess); }
     else if (x < 97) { atomic_store(&w->what, "async"); op_send(w, "async", 1, COAP_REQUEST_CODE_GET); }
-    else { atomic_store(&w->what, "unknown-path"); op_send(w, "nope", 1, COAP_REQUEST_CODE_GET); }
+    else if (x < 99) { atomic_store(&w->what, "unknown-path"); op_send(w, "nope", 1, COAP_REQUEST_CODE_GET); }
+    /* a repeated coap_startup() is documented to be ignored (libraries and applications both call it) */
+    else { atomic_store(&w->what, "coap_startup-again"); coap_startup(); atomic_fetch_add(&n_restart, 1); }
     atomic_fetch_add(&w->progress, 1);
     atomic_fetch_add(&n_ops, 1);
     atomic_store(&w->what, "pause");
@@ -620,10 +623,10 @@ int main(int argc, char **argv) {
   coap_cleanup();
   printf("stress ok workers=%d ops=%lu sent=%lu requests=%lu responses=%lu followups=%lu nacks=%lu "
          "events=%lu pings=%lu pongs=%lu reentries=%lu sessions=%lu resources=%lu cache=%lu async=%lu "
-         "notifies=%lu eintr=%lu\n", nworkers,
+         "notifies=%lu eintr=%lu startups=%lu\n", nworkers,
          atomic_load(&n_ops), atomic_load(&n_sent), atomic_load(&n_req), atomic_load(&n_resp),
          atomic_load(&n_followup), atomic_load(&n_nack), atomic_load(&n_event), atomic_load(&n_ping),
          atomic_load(&n_pong), atomic_load(&n_reent), atomic_load(&n_sess), atomic_load(&n_res),
-         atomic_load(&n_cache), atomic_load(&n_async), atomic_load(&n_notify), atomic_load(&n_eintr));
+         atomic_load(&n_cache), atomic_load(&n_async), atomic_load(&n_notify), atomic_load(&n_eintr), atomic_load(&n_restart));
   return 0;
 }
